@@ -382,8 +382,12 @@ def privateMessageContent (applicationData proposal commit : Codec) (contentType
     (seq [if contentType = 1 then applicationData else if contentType = 2 then proposal else commit,
           framedContentAuthData (contentType == 3)]) 5
 
-/-- `ProposalInfo<T>` (`proposal_filter/bundle.rs:555-595`) -/
-def proposalSourceSchema : Schema := .enum 1 [(1, none), (2, some (.struct [.bytes])), (3, none)]
+/-- `ProposalInfo<T>` (`proposal_filter/bundle.rs:555-595`).  `ProposalSource::ByReference(ProposalRef)`:
+`ProposalRef(HashReference)` (`proposal_ref.rs`) over `HashReference(Vec<u8>)` (`hash_reference.rs`), two nested
+newtypes (same bytes as one; the value shape follows the Rust types so that the generated `T_ProposalSource` is
+this schema by `rfl`, `Gen/Codecs.lean`). -/
+def proposalSourceSchema : Schema :=
+  .enum 1 [(1, none), (2, some (.struct [.struct [.bytes]])), (3, none)]
 
 def proposalInfo (p : Codec) : Codec :=
   seq [p, ofSchema senderSchema, ofSchema proposalSourceSchema]
